@@ -189,3 +189,32 @@ Fixpoint ss_drive (fuel : nat) (s : sbytes) (w : writer) (buf : list N) : option
 
 Definition ss_drive_all (script : list resp) (buf : list N) : option (sbytes * writer * sres) :=
   ss_drive (S (length script + length buf)) sb_new (writer_of script) buf.
+
+(* the same protocol over `write_vectored` (std's write_all_vectored loop):
+   IoSlice::advance_slices after a partial count, retry after Interrupted *)
+Fixpoint advance_slices (n : nat) (bufs : list (list N)) : list (list N) :=
+  match bufs with
+  | [] => []
+  | b :: rest => if Nat.leb (length b) n then advance_slices (n - length b) rest else skipn n b :: rest
+  end.
+
+Fixpoint ss_drive_v (fuel : nat) (s : sbytes) (w : writer) (bufs : list (list N)) : option (sbytes * writer * sres) :=
+  match advance_slices 0 bufs with
+  | [] => Some (s, w, ROk)
+  | bufs1 =>
+      match fuel with
+      | O => None
+      | S f =>
+          '(s1, w1, r) <- ss_op s w (OWriteVectored bufs1) ;;
+          match r with
+          | ROkN 0 => Some (s1, w1, RErr WriteZero)
+          | ROkN n => ss_drive_v f s1 w1 (advance_slices (N.to_nat n) bufs1)
+          | RErr Interrupted => ss_drive_v f s1 w1 bufs1
+          | RErr e => Some (s1, w1, RErr e)
+          | ROk => None
+          end
+      end
+  end.
+
+Definition ss_drive_v_all (script : list resp) (bufs : list (list N)) : option (sbytes * writer * sres) :=
+  ss_drive_v (S (length script + length (concat bufs) + length bufs)) sb_new (writer_of script) bufs.
